@@ -2,9 +2,19 @@ CHECK = {
     "obligations": ["C07.gen_proxy_book", "C07.c06_method_found", "C07.pinned_mixed_case_refused", "C06.c06_fields", "C06.c06_reply", "C06.c06_reply_extract", "C06.c06_ws", "C06.c06_ws_carrier", "C06.c06_tls_carrier", "C06.parseClientHello_serialize", "C06.gen_hello_structure",
                     "HS.parseExts_correct", "HS.lookupExt_last", "HS.ksLoop_find", "HS.gen_ks",
                     "C06.serverHello_layout", "C06.gen_reply_structure", "C06.gen_ws_structure", "C06.gen_sNeed",
-                    "HS.gen_client_layout", "HS.gen_server_layout", "HS.mkPlain_layout", "HS.window_exact"],
-    "lean_module": "CloakModel.Props.C06Disp",
-    "scenarios": ["C06"],
+                    "HS.gen_client_layout", "HS.gen_server_layout", "HS.mkPlain_layout", "HS.window_exact",
+                    # connector (client.MakeSession, common.backoff / RandRead / RandInt): Props/C06Connector.lean
+                    "C06Connector.gen_structure", "C06Connector.gen_sleeps", "C06Connector.gen_fallback", "C06Connector.gen_config",
+                    "C06Connector.gen_backoff_structure", "C06Connector.gen_randIntBound",
+                    "C06Connector.mk_exactly_numConn", "C06Connector.mk_conns_succeeded", "C06Connector.mk_none_closed",
+                    "C06Connector.mk_failed_closed", "C06Connector.mk_dial_fail_no_close", "C06Connector.mk_key_is_last",
+                    "C06Connector.mk_key_agree", "C06Connector.mk_key_agree_witness", "C06Connector.mk_fallback_hsFail",
+                    "C06Connector.mk_fallback_not_on_dialFail", "C06Connector.mk_fallback_private", "C06Connector.mk_fallback_run",
+                    "C06Connector.mk_no_panic", "C06Connector.mk_zero_panics", "C06Connector.c20_numConn_pos", "C06Connector.mk_config",
+                    "C06Connector.backoff_returned", "C06Connector.backoff_fatal", "C06Connector.backoff_total",
+                    "C06Connector.randRead_full_witness", "C06Connector.randRead_full_partial", "C06Connector.randInt_range"],
+    "lean_module": "CloakModel.Props.C06All",
+    "scenarios": ["C06", "C06mk"],
     "reset_ops": ["hs.oracle.reset"],
     "timeout": {"quick": 300, "thorough": 1800},
     "rule": "real handshakes in one process over in-memory connections: client DirectTLS.Handshake x {chrome, firefox, safari} and WSOverTLS.Handshake through a "
